@@ -201,7 +201,12 @@ pub fn worker(lane: &Lane, verif_seed: u64, shard: u64, of: u64, count: u64, sta
                     }
                     *n += 1;
                     // minimise and write a replay file
-                    let (msc, mtrace, mrr, minimised) = minimize::minimize(lane, sc, cfg, &rr, &key);
+                    let (msc, mtrace, mrr, minimised) = if lane.runner.is_some() {
+                        // establishment cases are single calls: nothing to minimise
+                        (sc.clone(), vec![], case.run(), false)
+                    } else {
+                        minimize::minimize(lane, sc, cfg, &rr, &key)
+                    };
                     let mv = (lane.check)(&msc, &mrr).into_iter().find(|x| x.key() == key).unwrap_or(v.clone());
                     let rep = Replay {
                         property: mv.property.clone(),
@@ -246,7 +251,10 @@ pub fn replay_file(path: &str) -> Result<(Replay, Vec<Violation>, RunResult), St
     let sc = rep.scenario.clone().ok_or("replay file has no scenario")?;
     let mut cfg = rep.cfg.clone().ok_or("replay file has no cfg")?.to();
     cfg.diverge_seed = None;
-    let rr = runner::run(&sc, Sched::from_trace(rep.trace.clone(), None), &cfg);
+    let rr = match lane.runner {
+        Some(f) => f(&sc, &cfg),
+        None => runner::run(&sc, Sched::from_trace(rep.trace.clone(), None), &cfg),
+    };
     let key = format!("{}|{}", rep.clause, rep.signature);
     let vs: Vec<Violation> = (lane.check)(&sc, &rr).into_iter().filter(|v| v.key() == key).collect();
     Ok((rep, vs, rr))
